@@ -40,7 +40,7 @@ ASSUMPTIONS = [
 ]
 
 MODS = ["", "-", "+"]
-RT_VARIANTS = ["out", "set", "if", "for", "filter", "test", "expr", "attr", "callarg"]
+RT_VARIANTS = ["out", "set", "if", "for", "filter", "test", "expr", "attr", "callarg", "elif", "callhead", "recfor"]
 SYN_VARIANTS = ["unexpected_end", "unknown_tag", "bad_pipe", "unterminated_str", "missing_expr", "two_names",
                 "unknown_filter", "unknown_test", "dup_kwarg", "bad_assign", "stray_end"]
 
@@ -49,6 +49,10 @@ RT_SRC = {
     "for": "{%%%s for i in boom() %s%%}x{%% endfor %%}", "filter": "{{%s 1|boomf %s}}",
     "test": "{%%%s if 1 is boomt %s%%}x{%% endif %%}", "expr": "{{%s 1 + boom() * 2 %s}}",
     "attr": "{{%s bobj.prop %s}}", "callarg": "{{%s ok(1, boom()) %s}}",
+    # "@@" marks where the raising single-line tag starts when the construct spans several lines
+    "elif": "{%%%s if false %s%%}a\n\n@@{%% elif boom() %%}b\n{%% else %%}c\n{%% endif %%}",
+    "callhead": "@@{%%%s call cbh(boom()) %s%%}\nbody\n\n{%% endcall %%}",
+    "recfor": "@@{%%%s for rv in boom() recursive %s%%}\n{{ rv }}\n\n{%% endfor %%}",
 }
 SYN_SRC = {
     "unexpected_end": "{{%s 1 + %s}}", "unknown_tag": "{%%%s frobnicate %s%%}", "bad_pipe": "{{%s x | %s}}",
@@ -67,7 +71,7 @@ ML = [
     lambda l, r, n: "{%%%s%sraw%s%%}{{ r }}{%%%sendraw%s%s%%}" % (l, n, n, n, n, r),
     lambda l, r, n: "{#%s c #}%s{#- d%s#}" % (l, n, n),
 ]
-CALL_HELPER = "{% macro cbh() %}{{ caller() }}{% endmacro %}"
+CALL_HELPER = "{% macro cbh(a=0) %}{{ caller() }}{% endmacro %}"
 
 # ---------------------------------------------------------------------------------------------
 # generator
@@ -192,14 +196,18 @@ def _print_nodes(nodes, fault, p, inside):
         elif k == "ml":
             p.add(ML[nd[1]](nd[2], nd[3], nd[4]))
         elif k == "FAULT":
-            p.mark_fault()
             p.features.update(inside)
             tmpl = (RT_SRC if fault["kind"] == "rt" else SYN_SRC)[fault["variant"]]
             l, r = nd[1], nd[2]
             if tmpl.startswith("{{"):
                 l = "" if l == "+" else l
                 r = "" if r == "+" else r
-            p.add(tmpl % (l, r))
+            text = tmpl % (l, r)
+            if "@@" in text:
+                before, text = text.split("@@", 1)
+                p.add(before)
+            p.mark_fault()
+            p.add(text)
         elif k in ("if", "for", "with", "filter", "setblock", "call"):
             l, r, body = nd[1], nd[2], nd[3]
             head = {"if": "if true", "for": "for lv in [1]", "with": "with wv = 1", "filter": "filter upper",
